@@ -175,3 +175,64 @@ func Harness_C17_NamespaceGate() {
 	verifrt.Reach("resolved")
 	verifrt.Assert((lead + ":")[:len(ns)+1] == ns+":", "a handler resolves a DID only if it begins with its own namespace followed by a colon")
 }
+
+// Harness_C17_HandlerHistory: what a handler answers does not depend on what it has resolved before. After a genuine
+// long-form DID has been resolved (or its create request processed), the same handler still refuses a DID that pairs
+// that suffix with another initial state, and resolves a second genuine DID to a document with its own id and
+// commitments; resolving the first DID again returns the same document.
+func Harness_C17_HandlerHistory() {
+	ns := "did:" + verifrt.AnyAtom("method")
+	h, err := New(ns)
+	if err != nil {
+		verifrt.Fail("handler construction failed")
+		return
+	}
+	c, suffix, state := c17Create("c")
+	did := ns + ":" + suffix + ":" + state
+	var first *document.ResolutionResult
+	if verifrt.Choose("first-call", 2) == 0 {
+		first, err = h.ResolveDocument(did)
+	} else {
+		first, err = h.ProcessOperation(gen.JSON(c.Request))
+	}
+	if err != nil {
+		verifrt.Fail("a long-form DID built from a valid create request does not resolve")
+		return
+	}
+	firstDoc := gen.JSON(first.Document)
+	o, otherSuffix, otherState := c17Create("o")
+	verifrt.Assume(otherState != state)
+	verifrt.Assume(otherSuffix != suffix)
+	switch verifrt.Choose("second-call", 4) {
+	case 0: // the resolved suffix with another request's initial state
+		_, err = h.ResolveDocument(ns + ":" + suffix + ":" + otherState)
+		verifrt.Reach("forged-after-genuine")
+		verifrt.Assert(err != nil, "a DID pairing an already resolved suffix with another initial state is rejected")
+	case 1: // the resolved suffix with an initial state that is not a create request at all
+		_, err = h.ResolveDocument(ns + ":" + suffix + ":" + encoder.EncodeToString([]byte("{}")))
+		verifrt.Reach("empty-after-genuine")
+		verifrt.Assert(err != nil, "a DID pairing an already resolved suffix with an empty initial state is rejected")
+	case 2: // a second genuine DID
+		otherDID := ns + ":" + otherSuffix + ":" + otherState
+		res, rerr := h.ResolveDocument(otherDID)
+		if rerr != nil {
+			verifrt.Fail("a second genuine long-form DID does not resolve on a handler that has resolved another")
+			return
+		}
+		verifrt.Reach("second-genuine")
+		verifrt.Assert(res.Document.ID() == otherDID, "the second document's id is the second DID")
+		mm := methodMeta(res)
+		verifrt.Assert(verifrt.JSONEqual(mm[document.RecoveryCommitmentProperty], o.Suffix.RecoveryCommitment) && verifrt.JSONEqual(mm[document.UpdateCommitmentProperty], o.Delta.UpdateCommitment),
+			"the second result reports the second request's commitments")
+		verifrt.Assert(string(gen.JSON(first.Document)) == string(firstDoc), "the first result is unchanged by the second resolution")
+	case 3: // the same DID again
+		res, rerr := h.ResolveDocument(did)
+		if rerr != nil {
+			verifrt.Fail("a genuine long-form DID does not resolve the second time")
+			return
+		}
+		verifrt.Reach("again")
+		verifrt.Assert(string(gen.JSON(res.Document)) == string(firstDoc) && res.Document.ID() == did, "resolving the same DID again returns the same document")
+		verifrt.Assert(verifrt.JSONEqual(res.DocumentMetadata, first.DocumentMetadata), "and the same metadata")
+	}
+}
